@@ -29,8 +29,8 @@ import (
 // Files: c18.go (registration, external table), c18_resolve.go, c18_literal.go (L1), c18_l2.go,
 // c18_init.go + c18_flow.go + c18_sorted.go + c18_immutable.go (L2 b/c), c18_l3.go, c18_reads.go, c18_l4.go,
 // c18_interp.go + c18_exec.go + c18_stmt.go + c18_eval.go + c18_compare.go + c18_calls.go (the evaluator),
-// c18_maps.go (lookup tables), c18_flowfix.go (fixpoint of the init analysis),
-// c18_benign.go + c18_variants.go + c18_round5*.go (behaviour-preserving variants), c18_seeded.go (defects seeded into them).
+// c18_maps.go (lookup tables), c18_concrete.go (literal slices/structs), c18_loops.go, c18_flowfix.go (fixpoint of the init analysis),
+// c18_benign.go + c18_variants.go + c18_round5*.go + c18_round7*.go (behaviour-preserving variants), c18_seeded.go (defects seeded into them).
 
 func init() {
 	c18Prop := &core.Property{
@@ -38,9 +38,9 @@ func init() {
 		Title: "Area classification of ways follows the published polygon-features rules",
 		Explanation: "Decided statically: (L1) the JSON literal unmarshalled into the conditions table, read as a constant through the type checker, equals tables/polygon-features.json (the published Overpass-turbo/osmtogeojson list) as a map key -> (all|whitelist|blacklist, value set), both directions, no duplicates; the published key `area` may be absent because the code handles it (L3). " +
 			"(L2) every binary search evaluated while (*Way).Polygon (or a function of the package it calls) decides a whitelist or blacklist entry searches that entry's value list for the tag value found under the entry's key; the value lists are sorted before any call (literal already sorted, or on every path through package initialisation - the call in the table's declaration, then the init functions - the unmarshal of the literal into the table or into a local slice is followed by a complete loop over that slice in which every iteration sorts the entry's list in place, directly or in helpers, and that slice is, is returned into, or is assigned to the table; slices assigned from one another share their entries); nothing else writes the table (assignments during initialisation are followed by the same analysis; local pointers to an entry must be read-only). " +
-			"(L3) (*Way).Polygon, executed over the control-flow graphs of itself and of every package function it calls (parameters, receivers, multi-value results, closures, function values, never-written lookup-table maps, re-assigned locals and pointer aliases are followed) for every combination of the finite abstractions {len(nodes) 0..5} x {closed, open} x {area: absent, no, other...} and, per rule entry, {value: absent, no, other...} x {all, whitelist, blacklist} x {search index at end, inside} x {element equal, different}, returns exactly what the published algorithm returns, never indexes out of range, the blacklist truth table is the complement of the whitelist one, an iteration of the rule loop that does not return leaves every local of the prefix unchanged (so the loop is `first matching entry wins`), and every expression of way, node-list, way-node or tag-list type in the evaluated functions is a len/index/ID read or a Tags.Find with the key `area` or the entry's key (so the answer depends on closedness and the tag set only). " +
-			"(L4) (*Relation).Polygon is true exactly for type in {multipolygon, boundary}. " +
-			"NOT decided: behaviour for node counts above 5 beyond `4 behaves like 5` (the rule loop may not compare the node count); value lists longer than the one-element abstraction when code branches on len(values) other than against the search index; correctness of sort.SearchStrings/sort.Strings/encoding/json themselves; tag lists holding the same key twice (Find returns the first); calls to Polygon from another package-level initialiser that runs before polygon.go's init.",
+			"(L3) (*Way).Polygon, executed over the control-flow graphs of itself and of every package function it calls (parameters, receivers, multi-value results, closures, function values, never-written lookup-table maps, re-assigned locals and pointer aliases are followed) for every combination of the finite abstractions {len(nodes) 0..5} x {closed, open} x {area: absent, no, other...} and, per rule entry, {value: absent, no, other...} x {all, whitelist, blacklist} x {search index at end, inside} x {element equal, different} (and, for the list kinds, witness lists of 0, 2, 3 and 4 ascending elements with the value before, at, between and behind them, so that a hand-written search is executed rather than recognised), returns exactly what the published algorithm returns, never indexes out of range, the blacklist truth table is the complement of the whitelist one, an iteration of the rule loop that does not return leaves every local of the prefix unchanged (so the loop is `first matching entry wins`), and every expression of way, node-list, way-node or tag-list type in the evaluated functions is a len/index/ID read or a Tags.Find with the key `area` or the entry's key (so the answer depends on closedness and the tag set only). " +
+			"(L4) (*Relation).Polygon (evaluated the same way; a literal table of rule structs it may be routed through is evaluated on its actual contents, sort.SearchStrings on the literal order) is true exactly for type in {multipolygon, boundary} and consults no tag but `type`. " +
+			"NOT decided: behaviour for node counts above 5 beyond `4 behaves like 5` (the rule loop may not compare the node count); value lists longer than 4 elements; correctness of sort.SearchStrings/sort.Strings/encoding/json themselves; tag lists holding the same key twice (Find returns the first); calls to Polygon from another package-level initialiser that runs before polygon.go's init.",
 		Assumptions: []string{"go/types constant evaluation, go/cfg (x/tools v0.29.0)", "encoding/json.Unmarshal field matching by struct tag (case-insensitive)", "sort.SearchStrings returns the insertion index in [0,len] on a sorted slice", "sort.Strings / sort.StringSlice.Sort / slices.Sort sort in place", "package init runs before any exported call", "Tags.Find(k) returns the value of the first tag with key k, \"\" when absent (it is the primitive through which tags are read; its body is not evaluated)", "tables/polygon-features.json is a faithful transcription of the published list"},
 		LevelText:   "The embedded rule table is compared entry by entry with the published polygon-features list, and the decision procedure of Way.Polygon / Relation.Polygon is evaluated over its control-flow graph for every combination of a finite abstraction of its inputs (node count, closedness, area tag class, per-entry value class, condition kind, binary-search outcome); together with the sorted-before-search precondition this fixes the function's result for every tag set without duplicate keys.",
 		LevelNote:   "Trusts the type checker's constant folding, go/cfg, encoding/json and package sort; the table file is a hand transcription of the published list (differences with the repository literal are reported, not copied).",
@@ -86,6 +86,9 @@ func init() {
 	c18Prop.Benign = append(c18Prop.Benign, c18Round5Benign()...)
 	c18Prop.Mutants = append(c18Prop.Mutants, c18Round5bMutants()...)
 	c18Prop.Benign = append(c18Prop.Benign, c18Round5bBenign()...)
+	c18Prop.Mutants = append(c18Prop.Mutants, c18Round7Mutants()...)
+	c18Prop.Benign = append(c18Prop.Benign, c18Round7Benign()...)
+	c18Prop.Benign = append(c18Prop.Benign, c18Round7bBenign()...)
 	register(c18Prop)
 }
 
